@@ -52,7 +52,7 @@ PROPS = {
         'functions': [],
         'oracles': {'#anon_sound': 'c09_mgu', '*': 'c09_anon', '#program_level': 'c09_program'},
         'bounded': [('c09_mgu', 'pairs containing `$_` against a reference unifier that treats `$_` as a wildcard: success exactly when a unifier exists, the other positions identical when resolved, no extra bindings (23 terms x 23 terms x 7 prior sets, those with `$_`)')],
-        'not_covered': ['programs using $_ in heads and bodies: the solver is outside reach; the clause covers every unify call, hence every position, by modularity. A bounded oracle (c09_program: 30 queries with `$_` against the same queries with fresh named variables, through the real search) looks at the search that makes the calls',
+        'not_covered': ['programs using $_ in heads and bodies: the clause covers every unify call, hence every position, by modularity; the solver calls unify within its preconditions (unit solver_wf, 8.37). A bounded oracle (c09_program: 30 queries with `$_` against the same queries with fresh named variables, through the real search) looks at the search that makes the calls',
                         'that a list pattern with a `$_` tail reaches unify as such: the constructor make_linked_list keeps `$_` after the bar as the tail (clause #tail, unit lists, tagged C09); the renaming of clause lists is C10'],
     },
     'C13': {
@@ -70,7 +70,7 @@ PROPS = {
         'oracles': {'*': 'c14_compare'},
         'bounded': [('c14_compare', 'all arms against Rust\'s own comparison of the converted operands (the proof of the integer/float arms is relative to the uninterpreted cast value i2f): 2815 operand pairs over extreme integers, -0.0, fractions, atoms, non-constants and variable chains')],
         'not_covered': [
-            "'at most once' is the more_solutions flag of next_solution_bip (RefCell solver node): not covered",
+            "'at most once' is the more_solutions flag of next_solution_bip: PROVED in unit solver (clause #once, C05 / C04: a built-in predicate is spent after one request)",
             'float/float arms are proved under the axiom that IEEE comparison is a function of its operands (obeys_eq_spec / obeys_partial_cmp_spec for f64)',
             'integer/float arms are proved relative to i2f(i), the uninterpreted value of the cast `i as f64` (rule R12 routes the cast through an external function; trusted T6: the cast is a function of i); that i2f is the IEEE round-to-nearest conversion is not proved - the bounded enumeration compares with Rust\'s own cast',
             'infix parsing of the operators (string level)',
@@ -81,7 +81,7 @@ PROPS = {
         'functions': ['built_in_append.rs::next_solution_append', 's_linked_list.rs::get_terms', 's_linked_list.rs::get_list_data'],
         'oracles': {'*': 'c16_append'},
         'not_covered': [
-            "'succeeds at most once' is the more_solutions flag of next_solution_bip (RefCell solver node)",
+            "'succeeds at most once' is the more_solutions flag of next_solution_bip: PROVED in unit solver (clause #once, C05 / C04)",
             'termination of the walk through bound tails (get_terms) - exec_allows_no_decreases_clause; lists that are their own tail are occurs-check cases',
             'inputs that are unbound variables or have unbound / anonymous tails are outside the statement (precondition)',
         ],
@@ -108,7 +108,7 @@ PROPS = {
         'functions': ['s_linked_list.rs::make_linked_list', 's_linked_list.rs::link_front', 's_linked_list.rs::parse_linked_list'],
         'oracles': {'s_linked_list.rs::make_linked_list': 'c15_make_linked_list', 's_linked_list.rs::parse_linked_list': 'c15_parsed'},
         'not_covered': [
-            'parsed lists: well-formedness of what parse_linked_list returns is proved; that its elements are the parses of the element texts is string-level (C19/C20, n/a)',
+            'parsed lists: well-formedness of what parse_linked_list returns is proved; that its elements are the parses of the element texts is PROVED for the lists it returns (C20, parse_linked_list #elements_alone, 8.33)',
         ],
     },
 }
@@ -124,7 +124,7 @@ PROPS['C07'] = {
         'if a finite unifier respecting the prior bindings exists both orders succeed; if one order succeeds with a result that has a solution at all, the other order succeeds; and when both succeed the two results have exactly the same '
         'set of solutions (every variable gets the same value under every instance of either result - the semantic form of "equal up to renaming of unbound variables" for two most general unifiers)',
         'not covered: pairs for which one order succeeds with bindings that have no finite solution (occurs-check situations, e.g. $X = f($X)); pairs containing `$_` (bounded oracle only)',
-        "not covered: 'head/goal unification' goes through the solver's call of unify (Rc<RefCell> node graph, outside reach); the clause covers every call of unify, whichever side a list pattern or the empty list is on",
+        "not covered: 'head/goal unification' goes through the solver's call of unify: the clause covers every call of unify, whichever side a list pattern or the empty list is on; that the solver calls unify within its preconditions is PROVED in unit solver_wf (C08, 8.37)",
         'the relation between "same set of solutions" and a syntactic renaming of unbound variables is the standard theorem about most general unifiers; it is not machine-checked here',
     ],
 }
@@ -143,7 +143,7 @@ PROPS['C10'] = {
                 '#nothing_kept_from_a_failed_clause': 'c01_prog', '#ids_released_only_after_failed_unification': 'c01_prog'},
     'not_covered': [
         'PROVED since 8.30: the ids handed out by one use of a clause or query all lie above the value the id counter had when the use began and up to its value when it ended (#ids_fresh, through the whole renaming family; get_rule: `all_fresh`), the counter being modelled as ghost state that next_id moves up by one (T9; Kani harness c10_counter_contract checks next_id itself); unify introduces no id of its own (#no_new_ids). PROVED since 8.36 (unit solver_ids, overlay contracts contracts/*+ids.vc on the verbatim bodies of next_solution, next_solution_and, next_solution_or, next_solution_bip, make_solution_node, make_base_node, set_head_node, over the node heap with the counter as its ghost field `ids`): every variable id referenced from the search state - the goal, the remaining operands and the bindings of every solution node - is at most the counter, before and after every request (ids_ok; #ids_kept, #ids_inv), and so is every answer returned; so the ids get_rule hands out (above the counter as it was: #ids_interval, proved in unit rename) are in use nowhere else in the search, and the rewinding of the counter after a failed head unification gives back ids nothing refers to (#rewind_is_sound). RELATIVE TO, stated as assumptions: get_rule\'s own preconditions at the solver\'s call site (the predicate exists, the stored rules are well formed; unify\'s preconditions at its call sites are PROVED in unit solver_wf, 8.37), the built-in predicates\' preconditions on the SHAPE of their arguments (they panic otherwise; that they introduce no variable of their own - #no_new_ids - is PROVED for all ten in their units compare, listops, append, which name the overlay), and the query was built in the current counter epoch (make_query, #ids_fresh). Answers already handed to the caller are outside the search state',
-        "'different names get different ids' and 'no fresh variable is in use elsewhere': ids come from next_id(); its counter contract (successive, non-zero, increasing) is proved by Kani, the composition with the map invariant is not machine-checked",
+        "'different names get different ids': one id per name by the map invariant (map_ok, #consistent), ids from next_id(), whose counter contract is proved by Kani on the real static and threaded as ghost state (T9) since 8.30",
         'get_rule: which vector the HashMap returns for a &str key is vstd\'s uninterpreted maps_borrowed_key_to_value (no String/str key axiom in vstd); the contract says the result is the renamed index-th rule of that vector',
         'make_query: the static-mut reset in start_query is covered by C22 (Kani); parse_query\'s call establishes the wf_seq precondition (unit parsers: every parser returns well-formed terms)',
     ],
@@ -207,7 +207,7 @@ PROPS['C21'] = {
     'not_covered': [
         'read_facts_and_rules is under proof (unit loader; rule R14 writes `for line in lines` as loop / next()): the text handed to separate_rules is the kept lines of the file in order, separated by white space, or the file is rejected; '
         'RELATIVE TO the assumed specification of io::Lines::next / line_reader (the lines of the named file, in order; T3) and to `stripped`, defined as what the pure function strip_comments returns',
-        'load_kb_from_file (parse_rule on each returned string, add_rules!) is not under contract: that each segment parses to the rule its text denotes is string-level (C19/C20, n/a)',
+        'load_kb_from_file (parse_rule on each returned string, add_rules!) is not under contract: that each segment parses to the rule its text denotes is string-level (C19: bounded round trip; C20: known findings)',
         'parse_rule itself (string parsing; see C18 for its panic-freedom)',
         "str::trim is specified only as 'a contiguous sub-sequence' (T3)",
     ],
